@@ -389,10 +389,11 @@ def r_squeeze(c):
     me = m.func(RBE + ".map_einsum")
     where = m.loc(m.module_of(sq), sq)
     ep, ap = sq.args.args[1].arg, sq.args.args[2].arg
-    c.check(has(sq, f"{ep}[tuple((slice(None) if $i not in {ap} else 0 "
-                    f"for $i in range({ep}.ndim)))] if {ap} else {ep}")
-            or has(sq, f"{ep}[tuple((0 if $i in {ap} else slice(None) "
-                       f"for $i in range({ep}.ndim)))] if {ap} else {ep}"), "R06-SQUEEZE",
+    from pta.pat import returns_are
+    idx = (f"{ep}[tuple((slice(None) if $i not in {ap} else 0 for $i in range({ep}.ndim)))]",
+           f"{ep}[tuple((0 if $i in {ap} else slice(None) for $i in range({ep}.ndim)))]")
+    c.check(any(returns_are(m, sq, {((ap, True),): i_, ((ap, False),): ep}) for i_ in idx),
+            "R06-SQUEEZE",
             "EinsumWithNoBroadcastsRewriter._squeeze_axes", "index-0-exactly-on-squeezed-axes",
             where, "the squeezed operand is not indexed with 0 exactly on the axes to "
             "squeeze and sliced fully elsewhere")
